@@ -11,6 +11,8 @@ package main
 // calls is torn apart deterministically).  The receiving side is a real endpoint with a catch-all
 // handler (arrival order) and several filtering handlers.  Every header field the reader leaves free
 // varies (genHeaderFields).  c10start.go: endpoints built on connections whose peer has already written.
+// c10end.go: what a handler (of every flavour) has been given when its life ends while its consumer is busy.
+// c10fail.go: Sends that fail on other connections before and while the concurrent senders work.
 
 import (
 	"bytes"
@@ -1307,8 +1309,12 @@ func runC10(res *hx.Result, rng *hx.Rng, tier string, outdir string) {
 		"every free header field varies (flags, 8 types, id/object/action/service at the extremes) and is compared field by field; " +
 		"start-up runs: the peer's first 1..6 messages already written before the endpoint is built by EndPointFinalizer (finalizer working 0..25 ms or sending first, 1..4 handlers), " +
 		"by NewEndPoint, or by a bus server's accept loop, on harness buffer / mem-pipe / unix / tcp / tls / fd-pipe; " +
+		"send-then-end runs: 1..3 handlers of every flavour (MakeHandler with a queue of the harness, AddHandler with a consumer callback, ReceiveAny), 1..22 messages, the last 1..10 back to back, " +
+		"then the handler's life ends (the peer hangs up at once / connection reset / local Close / RemoveHandler / keep=false) while every consumer is still busy, on the same six transports, " +
+		"after RemoveHandler / keep=false a new handler takes the freed slot and more messages follow; " +
+		"two sender runs in three are preceded (one in three also accompanied) by failing Sends on other connections of the process (8 kinds of failure, from 1..8 goroutines); " +
 		"operation sequences with 2..6 handlers (one in ten: 11..14 handlers, then removals) and 8..40 messages replayed on the model; non-trivial = the arrival order changes sender at least as often as there are senders, " +
-		"a dispatch c17script has >= 2 handlers, or a start-up run has >= 2 handlers and >= 2 messages written ahead; distinct by sha256 of (transport, arrival order), of the c17script text or of the start-up description"
+		"a dispatch c17script has >= 2 handlers, a start-up run has >= 2 handlers and >= 2 messages written ahead, or a send-then-end run has >= 2 messages; distinct by sha256 of (transport, arrival order), of the c17script text or of the start-up / send-then-end description"
 	path := filepath.Join(outdir, "C10_child.json")
 	os.Remove(path)
 	cmd := exec.Command(os.Args[0], "--seed", fmt.Sprint(res.Seed), "--tier", tier, "--out", outdir, "C10.child")
